@@ -304,7 +304,7 @@ func GenPSet(model string, r *core.Rand, o genOpts) PSet {
 		return storagePSet(desc, r, r.IntRange(2, 6))
 	case "StorageDissolvedDecay":
 		p["DeltaT"] = one(deltaT(r))
-		p["doStorageDecay"] = one(1) // the decay-off branch is exercised by C12 only (see known findings)
+		p["doStorageDecay"] = one(pick(r, 0, 1))
 		p["annualReturnInterval"] = one(r.Range(1, 100))
 		p["bankFullFlow"] = one(r.Range(0, 50))
 		p["medianFloodResidenceTime"] = one(r.Range(0, 10))
